@@ -317,7 +317,14 @@ func (h *hijackWriter) Hijack() (net.Conn, *bufio.ReadWriter, error) {
 // HTTP-FLV / HTTP-TS handler, optionally as a WebSocket upgrade, and returns
 // the client end on which the response (header + body) arrives.
 func (s *Server) HttpSub(pathWithQuery string, websocket bool) *memconn.Conn {
+	return s.HttpSubWindow(pathWithQuery, websocket, -1)
+}
+
+// HttpSubWindow is HttpSub with the client's receive window set before lal's handler starts (memconn.SetRecvWindow;
+// 0 = a peer that accepts nothing: everything lal writes stays in lal's own write queue until the window is opened).
+func (s *Server) HttpSubWindow(pathWithQuery string, websocket bool, window int) *memconn.Conn {
 	cli, srv := memconn.PairAddr(s.nextClientAddr(), "127.0.0.1:8080")
+	cli.SetRecvWindow(window)
 	s.track(cli)
 	req, err := http.NewRequest("GET", "http://127.0.0.1:8080"+pathWithQuery, nil)
 	if err != nil {
